@@ -12,6 +12,8 @@ import GM.Proof.QuoteSimHtml
 import GM.Proof.QuoteSimList
 import GM.Proof.QuoteSimNonePos
 import GM.Proof.QuoteSimFinal
+import GM.Proof.QuoteSimOpens
+import GM.Proof.QuoteSimInvP
 
 namespace GM.Blocks
 open GM GM.Text GM.Spec GM.Proof.Reader
@@ -23,22 +25,35 @@ def alC08 : BP → Bool
   | .listItem => false
   | _ => true
 
-theorem frames_all (al : BP → Bool) : Frames al where
-  open_ := fun bp parent s a s' h ha =>
+theorem frames_all (al : BP → Bool) (hnl : ∀ bp, al bp = true → bp.notList = true) : Frames al where
+  open_ := fun bp parent s a s' h hal ha =>
     ⟨by rw [bpOpen_opened bp parent s s' a h]; exact ha.opened,
      bpOpen_tmp bp parent s s' a h (fun b hb => (ha.opened b hb).2) ha.tmp,
-     bpOpen_fence bp parent s s' a h ha.fence⟩
-  cont := fun bp node s a s' h ha =>
+     bpOpen_fence bp parent s s' a h ha.fence,
+     us_bpOpen bp (hnl bp hal) parent s a s' ha.u h⟩
+  cont := fun bp node s a s' h hal hn0 ha =>
     ⟨by rw [bpContinue_opened bp node s s' a h]; exact ha.opened,
      bpContinue_tmp bp node s s' a h ha.tmp,
-     bpContinue_fence bp node s s' a h ha.fence⟩
-  close := fun bp node s a s' h ha =>
+     bpContinue_fence bp node s s' a h ha.fence,
+     us_bpContinue bp (hnl bp hal) node hn0 s a s' ha.u h⟩
+  close := fun bp node s a s' h hal hn0 ha =>
     ⟨by rw [bpClose_opened bp node s s' a h]; exact ha.opened,
      bpClose_tmp bp node s s' a h ha.tmp,
-     bpClose_fence bp node s s' a h ha.fence⟩
+     bpClose_fence bp node s s' a h ha.fence,
+     us_bpClose bp (hnl bp hal) node hn0 s a s' ha.u h⟩
   req := fun bp parent s a s' h hr => (requirePara_setext bp parent s s' a h hr).2
   nonePos := fun bp parent s a s' h hn => bpOpen_none_pos bp parent s s' a h hn
   contOpened := fun bp node s a s' h => bpContinue_opened bp node s s' a h
+
+theorem alC08_notList : ∀ bp, alC08 bp = true → bp.notList = true := by
+  intro bp h; cases bp <;> first | rfl | cases h
+
+theorem ustore_init : UStore [({ kind := .document } : Node)] := by
+  refine ⟨by decide, rfl, ?_⟩
+  intro n hn
+  simp only [List.mem_singleton] at hn
+  subst hn
+  exact ⟨⟨by decide, by decide⟩, by intro h; cases h⟩
 
 theorem contW {src bp} (h : ContinueSim src bp) : ∀ k ls p node sA sB, SR src k ls p sA sB →
     S2 (fun a b sA' sB' => b = a ∧ ∃ p', SR src k ls p' sA' sB') (bpContinue bp node sA) (bpContinue bp (node + 1) sB) :=
@@ -119,7 +134,8 @@ theorem C08Class.ne {src} (h : C08Class src) : src ≠ [] := by
 
 theorem cls_of {src} (h : C08Class src) : Cls src alC08 where
   ps := ps_all src
-  fr := frames_all _
+  fr := frames_all _ alC08_notList
+  ot := ot_all src
   ns := ns_of_last h.nl
   tr := trig_all h.nolist
   tf := h.tf
@@ -217,8 +233,8 @@ theorem openBlocks_nil (q : Nat) (b : Bool) (s : St) (ho : s.pc.opened = []) :
 
 /-- **The whole-run simulation.** If the block phase on `src` ends normally having read all lines, the block phase
     on `quotePrefix src` ends normally, and the two final node stores are related. -/
-theorem run_sim {src : Bytes} (hc : C08Class src) {sA' : St} (hA : run src = .ok sA') (hre : ReadToEnd src sA') :
-    ∃ sB', run (quotePrefix src) = .ok sB' ∧ StoreRel src sA'.nodes sB'.nodes := by
+theorem run_sim {src : Bytes} (hc : C08Class src) {sA' : St} (hA : run src = .ok sA') :
+    ∃ sB', run (quotePrefix src) = .ok sB' ∧ FRel src sA'.nodes sB'.nodes := by
   have cl := cls_of hc
   have h0 := cl.h0
   have hlt0 := lt_lineEnd src h0.lt
@@ -242,11 +258,11 @@ theorem run_sim {src : Bytes} (hc : C08Class src) {sA' : St} (hA : run src = .ok
       omega
     have hriA : RI src (initSt src).r ⟨((0 : Nat) : Int), 0, 0⟩ := ri_init src
     suffices hgoal : ∃ sB', parseBlocks 0 (initSt (quotePrefix src)) = .ok ((), sB') ∧
-        StoreRel src sAf.nodes sB'.nodes by
+        FRel src sAf.nodes sB'.nodes by
       obtain ⟨sB', e, hrel⟩ := hgoal
       exact ⟨sB', by unfold run; rw [e]; rfl, hrel⟩
     rw [parseBlocks_eq, show linesFuel (quotePrefix src) = lineCount (quotePrefix src) + 1 + 1 from rfl, eB]
-    have hai : AInv alC08 (initSt src).pc := ⟨fun _ hb => (by cases hb), (by intro e; cases e), fun _ hf => (by cases hf)⟩
+    have hai : AInv alC08 (initSt src).pc (initSt src).nodes := ⟨fun _ hb => (by cases hb), (by intro e; cases e), fun _ hf => (by cases hf), ustore_init⟩
     by_cases hb : isBlank (sub src 0 (lineEnd src 0)) = true
     · -- A skips its first line
       obtain ⟨r1, e1, hr1⟩ := skipFrom_blank h0 hriA hb (4 * src.length + 63) 0
@@ -280,7 +296,7 @@ theorem run_sim {src : Bytes} (hc : C08Class src) {sA' : St} (hA : run src = .ok
             pc := { ({} : Ctx) with blockOffset := (n : Int), blockIndent := (n : Int), opened := [{ node := 1, bp := .blockquote }] } } :=
         ⟨hc.tf, hr1, by simpa using hadv, storeRel_init src blankB, ⟨rfl, rfl, rfl, rfl, rfl⟩, hai, fun hne => absurd rfl hne⟩
       obtain ⟨h1, _⟩ := mainP_all cl (lineCount (quotePrefix src) + 1) (0 + 1) (lineEnd src 0) _ _ hls (pos_next h0)
-        (by omega) sAf hre
+        (by omega) sAf
       obtain ⟨x, sB', eL, hrel⟩ := h1 rfl _ _ _ _ hpa []
       refine ⟨sB', ?_, hrel⟩
       rw [bind_run eL]
@@ -310,17 +326,16 @@ theorem run_sim {src : Bytes} (hc : C08Class src) {sA' : St} (hA : run src = .ok
         have := qp_length_nl src
         have := nlCount_pos_of_last hc.nl
         unfold retryFuel; omega
-      obtain ⟨db, sB2, eOB, hrr, _, p', hDR⟩ := openBlocksLoop_sim cl.ps cl.fr cl.ns cl.tr _ blankB false _ _ hfuel 0
+      obtain ⟨db, sB2, eOB, hrr, _, ⟨p', hDR⟩, hopens⟩ := openBlocksLoop_sim cl.ps cl.fr cl.ot cl.ns cl.tr _ blankB false _ _ hfuel 0
         OpenResult.noBlocksOpened OpenResult.newBlocksOpened none none hdrl (.inl rfl) (.inr ⟨rfl, rfl⟩) d sA2 hd
       rw [bind_run eOB]
+      have hdn0 : d = OpenResult.newBlocksOpened := by
+        refine hopens rfl (.inr ⟨rfl, ?_⟩)
+        unfold NBV viewA
+        rw [if_pos hlt0]
+        exact hb'
       by_cases hnew : (d != OpenResult.newBlocksOpened) = true
-      · rw [if_pos hnew] at hA2
-        cases hA2
-        exfalso
-        have hline : sAf.r.line = ((0 : Nat) : Int) := by
-          have := hDR.s.r.a.abs.line; simpa [clearLo] using this
-        apply hre 0
-        rw [hline]; simpa using h0
+      · rw [hdn0] at hnew; cases hnew
       · rw [if_neg hnew] at hA2
         have hdn : d = OpenResult.newBlocksOpened := by
           simpa using hnew
@@ -332,7 +347,7 @@ theorem run_sim {src : Bytes} (hc : C08Class src) {sA' : St} (hA : run src = .ok
         have hnn : (OpenResult.newBlocksOpened != OpenResult.newBlocksOpened) = false := rfl
         rw [hnn]
         simp only [Bool.false_eq_true, if_false]
-        obtain ⟨x, sB', eL, hrel⟩ := afterLine cl.ns (mainP_all cl (lineCount (quotePrefix src) + 1)) hDR (by omega) hre
+        obtain ⟨x, sB', eL, hrel⟩ := afterLine cl.ns (mainP_all cl (lineCount (quotePrefix src) + 1)) hDR (by omega)
           _ _ _ hA2 []
         refine ⟨sB', ?_, hrel⟩
         obtain ⟨u2, sB3, ea, eL2⟩ := bind_inv eL
@@ -350,12 +365,33 @@ theorem readToEnd_iff (src : Bytes) (s : St) :
 instance (src : Bytes) (s : St) : Decidable (ReadToEnd src s) :=
   decidable_of_iff _ (readToEnd_iff src s).symm
 
-/-- the conclusion on the dumps: for a source of the class whose block phase ends normally, has read all lines, and
-    has built a well-shaped store, the two canonical dumps compared by `quoteSimPair` are equal -/
+/-- no stored segment of the final store is empty: the one clause of `WellShaped` that is not proved for the class -/
+def SegsNE (s : St) : Prop :=
+  ∀ n ∈ s.nodes, (∀ l ∈ n.lines, l.start < l.stop) ∧ (∀ i, n.info = some i → i.start < i.stop) ∧
+    (0 ≤ n.closure.start → n.closure.start < n.closure.stop)
+
+instance (s : St) : Decidable (SegsNE s) := by unfold SegsNE; infer_instance
+
+theorem wellShaped_of {s : St} (hu : UStore s.nodes) (hne : SegsNE s) : WellShaped s :=
+  ⟨hu.doc, fun n hn => ⟨(hu.node n hn).kind, (hne n hn).1, (hne n hn).2.1, (hne n hn).2.2, (hu.node n hn).kids⟩⟩
+
+theorem WellShaped.segsNE {s : St} (h : WellShaped s) : SegsNE s :=
+  fun n hn => ⟨(h.2 n hn).2.1, (h.2 n hn).2.2.1, (h.2 n hn).2.2.2.1⟩
+
+/-- the conclusion on the dumps: for a source of the class whose block phase ends normally in a store without empty
+    segments, the two canonical dumps compared by `quoteSimPair` are equal. (That the original run reads all lines,
+    that the Document has no lines and is nobody's child, and that there is no List / ListItem node are proved:
+    `run_sim`.) -/
 theorem quoteSim_of_class {src : Bytes} (hc : C08Class src) {sA : St} (hA : run src = .ok sA)
-    (hre : ReadToEnd src sA) (hw : WellShaped sA) : ∀ e g, quoteSimPair src = some (e, g) → e = g := by
-  obtain ⟨sB, hB, hn⟩ := run_sim hc hA hre
-  exact quoteSimPair_eq src sA sB hA hB hn hw
+    (hne : SegsNE sA) : ∀ e g, quoteSimPair src = some (e, g) → e = g := by
+  obtain ⟨sB, hB, hn, hu⟩ := run_sim hc hA
+  exact quoteSimPair_eq src sA sB hA hB hn (wellShaped_of hu hne)
+
+/-- the unary facts about the original run of a source of the class that are PROVED: its final store satisfies
+    `UStore` (Document without lines and nobody's child, no List / ListItem node) -/
+theorem ustore_of_class {src : Bytes} (hc : C08Class src) {sA : St} (hA : run src = .ok sA) : UStore sA.nodes := by
+  obtain ⟨_, _, _, hu⟩ := run_sim hc hA
+  exact hu
 
 instance (src : Bytes) : Decidable (NoListTrigger src) := by unfold NoListTrigger; infer_instance
 
@@ -380,6 +416,6 @@ theorem quoteSim_of_hyp {src : Bytes} (h : quoteHyp src = true) : ∀ e g, quote
   | ok s =>
     rw [hr] at hm
     simp only [Bool.and_eq_true, decide_eq_true_eq] at hm
-    exact quoteSim_of_class hc hr hm.1 hm.2
+    exact quoteSim_of_class hc hr hm.2.segsNE
 
 end GM.Blocks
